@@ -6,6 +6,8 @@ use crate::dev::Dev;
 use crate::engine::*;
 use crate::model::*;
 use crate::refmodel::codec::{self, MBody, MFile, MRecord};
+#[allow(unused_imports)]
+use crate::table;
 use crate::structs::*;
 use crate::{with_concrete, with_ty};
 use serde_json::{json, Value};
@@ -31,6 +33,10 @@ pub enum Case {
     Value { ty: Ty, idx: usize },
     /// bulk conversion of [ok.., wrong, ok..]
     Bulk { ty: Ty, wrong: Ty, len: usize, pos: usize },
+    /// a hand-encoded file whose records have the given types, read as `requested` through
+    /// route 0 ShapeReader::new, 1 with_shx, 2 with_shx whose index lists every record twice,
+    /// 3 the complete Reader (index + dbf)
+    Mixed { requested: Ty, types: Vec<Ty>, route: u8 },
 }
 
 fn tyj(t: Ty) -> Value {
@@ -49,6 +55,7 @@ impl Case {
             }
             Case::Value { ty, idx } => json!({"kind": "value", "ty": tyj(*ty), "idx": idx}),
             Case::Bulk { ty, wrong, len, pos } => json!({"kind": "bulk", "ty": tyj(*ty), "wrong": tyj(*wrong), "len": len, "pos": pos}),
+            Case::Mixed { requested, types, route } => json!({"kind": "mixed", "requested": tyj(*requested), "types": types.iter().map(|t| t.name()).collect::<Vec<_>>(), "route": route}),
         }
     }
     pub fn from_json(v: &Value) -> Option<Case> {
@@ -69,6 +76,11 @@ impl Case {
             "value" => Some(Case::Value {
                 ty: tyf(v.get("ty"))?,
                 idx: v.get("idx")?.as_u64()? as usize,
+            }),
+            "mixed" => Some(Case::Mixed {
+                requested: tyf(v.get("requested"))?,
+                types: v.get("types")?.as_array()?.iter().map(|x| Ty::from_name(x.as_str()?)).collect::<Option<Vec<_>>>()?,
+                route: v.get("route")?.as_u64()? as u8,
             }),
             "bulk" => Some(Case::Bulk {
                 ty: tyf(v.get("ty"))?,
@@ -223,6 +235,91 @@ pub fn run(case: &Case) -> Vec<(String, String)> {
                         format!("{}::try_from(Shape::{}) = {:?}, expected {:?}", s.name(), tn, r, want),
                     ));
                     break;
+                }
+            }
+        }
+        Case::Mixed { requested, types, route } => {
+            // records: structure 0 of each type (as constructed), null records for Ty::Null
+            let records: Vec<MRecord> = types
+                .iter()
+                .enumerate()
+                .map(|(k, t)| MRecord {
+                    number: k as i32 + 1,
+                    body: if *t == Ty::Null {
+                        MBody::Null
+                    } else {
+                        let built = from_lib(&to_lib(&reduced_set(*t)[k % 2])).shape;
+                        let bbox = codec::true_bbox(&built);
+                        MBody::Shape { shape: built, bbox, with_m: true }
+                    },
+                })
+                .collect();
+            let file = MFile { ty: *requested, header_box: [0.0; 8], records, trailing: vec![] };
+            let enc = codec::encode(&file);
+            let n = types.len();
+            let order: Vec<usize> = if *route == 2 { (0..n).flat_map(|i| [i, i]).collect() } else { (0..n).collect() };
+            let (shx, _) = codec::encode_shx(&file, &enc, &order);
+            let expect_at = |i: usize| -> Result<Ty, String> {
+                if types[i] == *requested {
+                    Ok(types[i])
+                } else {
+                    Err(mismatch(*requested, types[i]))
+                }
+            };
+            let first_bad = (0..n).find(|i| types[*i] != *requested);
+            match route {
+                0 | 1 | 2 => {
+                    let items: Vec<Result<Ty, String>> = with_ty!(*requested, S => {
+                        let mut r = if *route == 0 { ShapeReader::new(Dev::quiet(enc.bytes.clone())).expect("open") } else { ShapeReader::with_shx(Dev::quiet(enc.bytes.clone()), Dev::quiet(shx.clone())).expect("open") };
+                        r.iter_shapes_as::<S>().take(2 * n + 2).map(|x| x.map(|s| variant_ty(&Shape::from(s))).map_err(|e| err_kind(&e))).collect()
+                    }, unreachable!());
+                    let expected: Vec<Result<Ty, String>> = if *route == 0 {
+                        // without an index the iteration is only defined up to the first error
+                        match first_bad {
+                            None => (0..n).map(expect_at).collect(),
+                            Some(k) => (0..=k).map(expect_at).collect(),
+                        }
+                    } else {
+                        order.iter().map(|i| expect_at(*i)).collect()
+                    };
+                    let got: &[Result<Ty, String>] = if *route == 0 { &items[..items.len().min(expected.len())] } else { &items[..] };
+                    if got != &expected[..] {
+                        out.push((format!("mixed-file:route{}:typed-iteration", route), format!("read as {}: items {:?}, expected {:?}", requested.name(), items, expected)));
+                    }
+                    let collected: Result<usize, String> = with_ty!(*requested, S => {
+                        let r = if *route == 0 { ShapeReader::new(Dev::quiet(enc.bytes.clone())).expect("open") } else { ShapeReader::with_shx(Dev::quiet(enc.bytes.clone()), Dev::quiet(shx.clone())).expect("open") };
+                        r.read_as::<S>().map(|v| v.len()).map_err(|e| err_kind(&e))
+                    }, unreachable!());
+                    let want: Result<usize, String> = match first_bad {
+                        None => Ok(order.len()),
+                        Some(k) => Err(mismatch(*requested, types[k])),
+                    };
+                    if collected != want {
+                        out.push((format!("mixed-file:route{}:read_as", route), format!("read_as::<{}>() = {:?}, expected {:?}", requested.name(), collected, want)));
+                    }
+                }
+                _ => {
+                    // complete reader: a table with one row per record
+                    let dbf = Dev::quiet(vec![]);
+                    {
+                        let mut tw = crate::table::table_writer(dbf.clone());
+                        for i in 0..n {
+                            tw.write_record(&crate::table::good_row(i)).expect("row");
+                        }
+                    }
+                    let collected: Result<usize, String> = with_ty!(*requested, S => {
+                        let sr = ShapeReader::with_shx(Dev::quiet(enc.bytes.clone()), Dev::quiet(shx.clone())).expect("open");
+                        let dr = shapefile::dbase::Reader::new(Dev::quiet(dbf.data())).expect("open dbf");
+                        let mut r = shapefile::Reader::new(sr, dr);
+                        r.read_as::<S, shapefile::dbase::Record>().map(|v| v.len()).map_err(|e| err_kind(&e))
+                    }, unreachable!());
+                    let want: Result<usize, String> = match first_bad {
+                        None => Ok(n),
+                        Some(k) => Err(mismatch(*requested, types[k])),
+                    };
+                    if collected != want {
+                        out.push(("mixed-file:complete-reader:read_as".to_string(), format!("Reader::read_as::<{}, Record>() = {:?}, expected {:?} (the first mismatching record)", requested.name(), collected, want)));
+                    }
                 }
             }
         }
@@ -389,6 +486,16 @@ pub fn check(tier: Tier) -> i32 {
             }
         }
     }
+    // mixed files with two different wrong types, through every reading route
+    for requested in ALL13 {
+        let a = if requested == Ty::Point { Ty::PolylineZ } else { Ty::Point };
+        let alphabet = [requested, a, Ty::Null];
+        for v in crate::structs::tuples(3, 3) {
+            for route in 0..4u8 {
+                cases.push(Case::Mixed { requested, types: v.iter().map(|i| alphabet[*i]).collect(), route });
+            }
+        }
+    }
     for ty in ALL13 {
         for idx in 0..value_set(ty).len() {
             cases.push(Case::Value { ty, idx });
@@ -436,7 +543,7 @@ pub fn check(tier: Tier) -> i32 {
             tier,
             level: "model_checking",
             engine: "E2 complete type matrix on the real reader / conversions; files by the library writer (13 types) and by RefCodec (null and mixed-type files)",
-            rule: "all 13 x 14 ordered (requested S, actual T) pairs x files of 1-2 (thorough 3) records over 3 structures, plus files whose last record has any other of the 14 types; every shape value of the C01 quick structure set for the identity / conversion clauses against all 13 target types; bulk conversion with the wrong element at every position of vectors of length 1-3 for all 13 x 13 pairs; non-trivial = every case",
+            rule: "all 13 x 14 ordered (requested S, actual T) pairs x files of 1-2 (thorough 3) records over 3 structures, plus files whose last record has any other of the 14 types; every shape value of the C01 quick structure set for the identity / conversion clauses against all 13 target types; bulk conversion with the wrong element at every position of vectors of length 1-3 for all 13 x 13 pairs; hand-encoded 3-record files over {S, another type, null} for every S through ShapeReader::new / with_shx / with_shx with every index entry doubled / the complete Reader; non-trivial = every case",
             bounds: json!({"matrix": "13x14 complete", "cases": cases.len()}),
             exhaustive: true,
             assumptions: vec!["type names in errors are compared through their integer codes; Display names are C19's".into()],
